@@ -287,6 +287,7 @@ func runC18(c *Ctx) {
 	}
 	ruleSizeGuard(c, "mapset")
 	ruleSetArgFlow(c)
+	ruleNilWriteback(c)
 	// IsEmpty is Len() == 0 (a non-nil set without members is empty); HasAny answers true only after a member was found
 	c.rule("R-PREDICATE-WITNESS", 2, "IsEmpty tests the length; HasAny's only non-false answer is a constant true after a successful membership test")
 	if ie := P.Func("mapset", "Set", "IsEmpty"); ie != nil {
@@ -387,7 +388,7 @@ func runC18(c *Ctx) {
 		c.sawFn(fnName(ha))
 		c.judge(len(probs) == 0, "R-PREDICATE-WITNESS", "mapset.Set.HasAny:true needs a witness", ha.Pos(), "true only after Has succeeded; otherwise false", fmt.Sprintf("HasAny can answer with %v: 'some listed item is a member' has no witness there (an empty list of items has no member in any set)", probs))
 	}
-	c.rule("R-CARD-SHORTCUT", 1, "a branch on len(a) vs len(b) that returns a constant answer compares two sets, never a list (repeats) with a set")
+	c.rule("R-CARD-SHORTCUT", 0, "a branch on len(a) vs len(b) that returns a constant answer compares two sets, never a list (repeats) with a set")
 	c.rule("R-NIL-LAZY", 2, "every map update of *s (directly or via a receiver-updating helper) is preceded on all paths by *s != nil or a store of a fresh map")
 	setT := P.Named("mapset", "Set")
 	if setT == nil {
@@ -661,6 +662,39 @@ func runC18(c *Ctx) {
 				return // a value-receiver method forwarding its own receiver
 			}
 			good, why := f.valueFNN(recv, fn, 0)
+			if ph, isPhi := recv.(*ssa.Phi); isPhi && !good {
+				// a local holding the map (dst := *s; if dst == nil { dst = make(…); *s = dst }): every value that can
+				// reach the call is a fresh non-nil map or one known to be non-nil on its edge
+				all := true
+				for i, e := range ph.Edges {
+					if g, _ := f.valueFNN(e, fn, 0); g {
+						continue
+					}
+					pred := ph.Block().Preds[i]
+					cms := cmpsAt(pred)
+					if iff, ok := pred.Instrs[len(pred.Instrs)-1].(*ssa.If); ok {
+						idx := 0
+						if pred.Succs[1] == ph.Block() {
+							idx = 1
+						}
+						if cm, ok := edgeCmp(iff, idx); ok {
+							cms = append(cms, cm)
+						}
+					}
+					nn := false
+					for _, cm := range cms {
+						if cm.Op == token.NEQ && ((cm.X == e && isNilConst(cm.Y)) || (cm.Y == e && isNilConst(cm.X))) {
+							nn = true
+						}
+					}
+					if !nn {
+						all = false
+					}
+				}
+				if all {
+					good = true
+				}
+			}
 			c.judge(good, "R-NIL-LAZY", fnName(fn)+":call "+cal.Name()+" on "+ksym(recv), call.Pos(), "writer helper called on a fresh non-nil map", "writer helper may receive a nil map: "+why)
 		})
 	}
